@@ -444,6 +444,7 @@ package boltz
 //@   ensures result == bucket
 //@   ensures[skipped] !proceeds(bucket, name, checker) ==> bucket.Err == old(bucket.Err) && bktHas[bucket.Bucket] == old(bktHas[bucket.Bucket]) && bktSub[bucket.Bucket] == old(bktSub[bucket.Bucket])
 //@   ensures[map-bucket] proceeds(bucket, name, checker) && bucket.Err == nil ==> bktHas[bucket.Bucket][name] && bktSub[bucket.Bucket][name] != 0
+//@   ensures[scalar-entries-written] proceeds(bucket, name, checker) && bucket.Err == nil ==> forallStr(k, has(value, k) && isScalar(value[k]) ==> bcell(bktSub[bucket.Bucket][name], k) == encScalar(value[k]))
 //@   ensures[other-keys-kept] otherKeysKept(bucket, name)
 //@   invariant[p0] 1: tagsBucket != nil
 //@   invariant[p1] 1: tagsBucket.Bucket != bucket.Bucket
@@ -454,6 +455,7 @@ package boltz
 //@   invariant[p6] 1: bktHas[bucket.Bucket][name]
 //@   invariant[p7] 1: bucket.Err == nil
 //@   invariant[p8] 1: otherKeysKept(bucket, name)
+//@   invariant[entries] 1: tagsBucket.Err == nil ==> forallStr(k, iterseen(k) && isScalar(value[k]) ==> bcell(tagsBucket.Bucket, k) == encScalar(value[k]))
 //@ func (*TypedBucket).PutList
 //@   props C13
 //@   assume bucket.ErrorHolderImpl != nil && bucket.Bucket != nil
@@ -466,8 +468,19 @@ package boltz
 //@   invariant 1: listBucket != nil && listBucket.Bucket != bucket.Bucket && listBucket.ErrorHolderImpl != bucket.ErrorHolderImpl && listBucket.Bucket != nil && listBucket.ErrorHolderImpl != nil && listBucket.Bucket == bktSub[bucket.Bucket][name] && bktHas[bucket.Bucket][name] && bucket.Err == nil && otherKeysKept(bucket, name) && (listBucket.Err == nil ==> forall(j, 0 <= j && j <= rangeindex && isScalar(value[j]) ==> sel(bktHas[listBucket.Bucket], prepend(TypeInt32, le32(j))) && sel(bktSub[listBucket.Bucket], prepend(TypeInt32, le32(j))) == 0 && sel(bktVal[listBucket.Bucket], prepend(TypeInt32, le32(j))) == encScalar(value[j])))
 //@ func (*TypedBucket).GetMap
 //@   props C13
+//@   assume bucket != nil && bucket.ErrorHolderImpl != nil && bucket.Bucket != nil && enumKeys()
 //@   pure
-//@   ensures result != nil
+//@   ensures[a-map] result != nil && fresh(result)
+//@   ensures[no-bucket-no-entries] bucket.Err == nil && !(bktHas[bucket.Bucket][name] && bktSub[bucket.Bucket][name] != 0) ==> forallStr(k, !has(result, k))
+//@   ensures[keys] bucket != nil && bucket.Err == nil && bktHas[bucket.Bucket][name] && bktSub[bucket.Bucket][name] != 0 ==> forallStr(k, has(result, k) == sel(bktHas[bktSub[bucket.Bucket][name]], k))
+//@   ensures[null-entries] bucket != nil && bucket.Err == nil && bktHas[bucket.Bucket][name] && bktSub[bucket.Bucket][name] != 0 ==> forallStr(k, sel(bktHas[bktSub[bucket.Bucket][name]], k) && ((str_len(bcell(bktSub[bucket.Bucket][name], k)) == 0 || tagOf(bcell(bktSub[bucket.Bucket][name], k)) == TypeNil) && sel(bktSub[bktSub[bucket.Bucket][name]], k) == 0) ==> (result[k] == nil))
+//@   ensures[string-entries] bucket != nil && bucket.Err == nil && bktHas[bucket.Bucket][name] && bktSub[bucket.Bucket][name] != 0 ==> forallStr(k, sel(bktHas[bktSub[bucket.Bucket][name]], k) && (str_len(bcell(bktSub[bucket.Bucket][name], k)) > 0 && tagOf(bcell(bktSub[bucket.Bucket][name], k)) == TypeString) ==> (istype(result[k], string) && as(result[k], string) == untag(bcell(bktSub[bucket.Bucket][name], k))))
+//@   ensures[int32-entries] bucket != nil && bucket.Err == nil && bktHas[bucket.Bucket][name] && bktSub[bucket.Bucket][name] != 0 ==> forallStr(k, sel(bktHas[bktSub[bucket.Bucket][name]], k) && (str_len(bcell(bktSub[bucket.Bucket][name], k)) == 5 && tagOf(bcell(bktSub[bucket.Bucket][name], k)) == TypeInt32) ==> (istype(result[k], int32) && as(result[k], int32) == s32(le32val(untag(bcell(bktSub[bucket.Bucket][name], k))))))
+//@   ensures[int64-entries] bucket != nil && bucket.Err == nil && bktHas[bucket.Bucket][name] && bktSub[bucket.Bucket][name] != 0 ==> forallStr(k, sel(bktHas[bktSub[bucket.Bucket][name]], k) && (str_len(bcell(bktSub[bucket.Bucket][name], k)) == 9 && tagOf(bcell(bktSub[bucket.Bucket][name], k)) == TypeInt64) ==> (istype(result[k], int64) && as(result[k], int64) == s64(le64val(untag(bcell(bktSub[bucket.Bucket][name], k))))))
+//@   ensures[float64-entries] bucket != nil && bucket.Err == nil && bktHas[bucket.Bucket][name] && bktSub[bucket.Bucket][name] != 0 ==> forallStr(k, sel(bktHas[bktSub[bucket.Bucket][name]], k) && (str_len(bcell(bktSub[bucket.Bucket][name], k)) == 9 && tagOf(bcell(bktSub[bucket.Bucket][name], k)) == TypeFloat64) ==> (istype(result[k], float64) && as(result[k], float64) == f64frombits(le64val(untag(bcell(bktSub[bucket.Bucket][name], k))))))
+//@   ensures[time-entries] bucket != nil && bucket.Err == nil && bktHas[bucket.Bucket][name] && bktSub[bucket.Bucket][name] != 0 ==> forallStr(k, sel(bktHas[bktSub[bucket.Bucket][name]], k) && (str_len(bcell(bktSub[bucket.Bucket][name], k)) > 1 && tagOf(bcell(bktSub[bucket.Bucket][name], k)) == TypeTime && untag(bcell(bktSub[bucket.Bucket][name], k)) == timeBin(timeBinVal(untag(bcell(bktSub[bucket.Bucket][name], k))))) ==> (istype(result[k], time.Time) && timeInstant(as(result[k], time.Time)) == timeBinVal(untag(bcell(bktSub[bucket.Bucket][name], k)))))
+//@   ensures[bool-entries] bucket != nil && bucket.Err == nil && bktHas[bucket.Bucket][name] && bktSub[bucket.Bucket][name] != 0 ==> forallStr(k, sel(bktHas[bktSub[bucket.Bucket][name]], k) && (str_len(bcell(bktSub[bucket.Bucket][name], k)) > 1 && tagOf(bcell(bktSub[bucket.Bucket][name], k)) == TypeBool) ==> (istype(result[k], bool) && (str_at(bcell(bktSub[bucket.Bucket][name], k), 1) == 1 ==> as(result[k], bool)) && (str_at(bcell(bktSub[bucket.Bucket][name], k), 1) == 0 ==> !as(result[k], bool))))
+//@   invariant 1: result != nil && fresh(result) && mapBucket != nil && mapBucket.ErrorHolderImpl != nil && cursor != nil && (bucket.Err == nil ==> mapBucket.Bucket == bktSub[bucket.Bucket][name] && mapBucket.Bucket != nil && mapBucket.ErrorHolderImpl != nil && mapBucket.Err == nil && cursor != nil && bcKeys[cursor] == keysOf(bktHas[bktSub[bucket.Bucket][name]]) && bcLen[cursor] == keyCnt(bktHas[bktSub[bucket.Bucket][name]]) && 0 <= bcPos[cursor] && bcPos[cursor] <= bcLen[cursor] && (key != nil) == (bcPos[cursor] < bcLen[cursor]) && (key != nil ==> str(key) == sel(bcKeys[cursor], bcPos[cursor])) && forall(i, 0 <= i && i < bcPos[cursor] ==> has(result, sel(keysOf(bktHas[bktSub[bucket.Bucket][name]]), i))) && forallStr(k, has(result, k) ==> exists(i, 0 <= i && i < bcPos[cursor] && k == sel(keysOf(bktHas[bktSub[bucket.Bucket][name]]), i))) && forallStr(k, has(result, k) && ((str_len(bcell(bktSub[bucket.Bucket][name], k)) == 0 || tagOf(bcell(bktSub[bucket.Bucket][name], k)) == TypeNil) && sel(bktSub[bktSub[bucket.Bucket][name]], k) == 0) ==> (result[k] == nil)) && forallStr(k, has(result, k) && (str_len(bcell(bktSub[bucket.Bucket][name], k)) > 0 && tagOf(bcell(bktSub[bucket.Bucket][name], k)) == TypeString) ==> (istype(result[k], string) && as(result[k], string) == untag(bcell(bktSub[bucket.Bucket][name], k)))) && forallStr(k, has(result, k) && (str_len(bcell(bktSub[bucket.Bucket][name], k)) == 5 && tagOf(bcell(bktSub[bucket.Bucket][name], k)) == TypeInt32) ==> (istype(result[k], int32) && as(result[k], int32) == s32(le32val(untag(bcell(bktSub[bucket.Bucket][name], k)))))) && forallStr(k, has(result, k) && (str_len(bcell(bktSub[bucket.Bucket][name], k)) == 9 && tagOf(bcell(bktSub[bucket.Bucket][name], k)) == TypeInt64) ==> (istype(result[k], int64) && as(result[k], int64) == s64(le64val(untag(bcell(bktSub[bucket.Bucket][name], k)))))) && forallStr(k, has(result, k) && (str_len(bcell(bktSub[bucket.Bucket][name], k)) == 9 && tagOf(bcell(bktSub[bucket.Bucket][name], k)) == TypeFloat64) ==> (istype(result[k], float64) && as(result[k], float64) == f64frombits(le64val(untag(bcell(bktSub[bucket.Bucket][name], k)))))) && forallStr(k, has(result, k) && (str_len(bcell(bktSub[bucket.Bucket][name], k)) > 1 && tagOf(bcell(bktSub[bucket.Bucket][name], k)) == TypeTime && untag(bcell(bktSub[bucket.Bucket][name], k)) == timeBin(timeBinVal(untag(bcell(bktSub[bucket.Bucket][name], k))))) ==> (istype(result[k], time.Time) && timeInstant(as(result[k], time.Time)) == timeBinVal(untag(bcell(bktSub[bucket.Bucket][name], k))))) && forallStr(k, has(result, k) && (str_len(bcell(bktSub[bucket.Bucket][name], k)) > 1 && tagOf(bcell(bktSub[bucket.Bucket][name], k)) == TypeBool) ==> (istype(result[k], bool) && (str_at(bcell(bktSub[bucket.Bucket][name], k), 1) == 1 ==> as(result[k], bool)) && (str_at(bcell(bktSub[bucket.Bucket][name], k), 1) == 0 ==> !as(result[k], bool)))))
 // bcell(B, n): like cell, for a raw bucket
 //@ define bcell(B, n) = ite(sel(bktHas[B], n) && sel(bktSub[B], n) == 0, sel(bktVal[B], n), "")
 //@ func (*TypedBucket).GetList
@@ -512,3 +525,15 @@ package boltz
 //@   ensures[float64-elements] old(b.Err) == nil && b.Err == nil ==> forall(j, 0 <= j && j < len(value) && istype(value[j], float64) ==> istype(result[j], float64) && as(result[j], float64) == as(value[j], float64))
 //@   ensures[time-elements] old(b.Err) == nil && b.Err == nil ==> forall(j, 0 <= j && j < len(value) && istype(value[j], time.Time) ==> istype(result[j], time.Time) && timeInstant(as(result[j], time.Time)) == timeInstant(as(value[j], time.Time)))
 //@   ensures[bool-elements] old(b.Err) == nil && b.Err == nil ==> forall(j, 0 <= j && j < len(value) && istype(value[j], bool) ==> istype(result[j], bool) && as(result[j], bool) == as(value[j], bool))
+//@ func verifRoundTripMap
+//@   props C13
+//@   assume b != nil && b.ErrorHolderImpl != nil && b.Bucket != nil && enumKeys()
+//@   modifies b.Err, bktHas[b.Bucket], bktSub[b.Bucket]
+//@   ensures[null-entries] old(b.Err) == nil && b.Err == nil ==> forallStr(k, has(value, k) && value[k] == nil ==> has(result, k) && result[k] == nil)
+//@   ensures[string-entries] old(b.Err) == nil && b.Err == nil ==> forallStr(k, has(value, k) && istype(value[k], string) ==> istype(result[k], string) && as(result[k], string) == as(value[k], string))
+//@   ensures[int32-entries] old(b.Err) == nil && b.Err == nil ==> forallStr(k, has(value, k) && istype(value[k], int32) ==> istype(result[k], int32) && as(result[k], int32) == as(value[k], int32))
+//@   ensures[int64-entries] old(b.Err) == nil && b.Err == nil ==> forallStr(k, has(value, k) && istype(value[k], int64) ==> istype(result[k], int64) && as(result[k], int64) == as(value[k], int64))
+//@   ensures[int-entries-widen] old(b.Err) == nil && b.Err == nil ==> forallStr(k, has(value, k) && istype(value[k], int) ==> istype(result[k], int64) && as(result[k], int64) == as(value[k], int))
+//@   ensures[float64-entries] old(b.Err) == nil && b.Err == nil ==> forallStr(k, has(value, k) && istype(value[k], float64) ==> istype(result[k], float64) && as(result[k], float64) == as(value[k], float64))
+//@   ensures[time-entries] old(b.Err) == nil && b.Err == nil ==> forallStr(k, has(value, k) && istype(value[k], time.Time) ==> istype(result[k], time.Time) && timeInstant(as(result[k], time.Time)) == timeInstant(as(value[k], time.Time)))
+//@   ensures[bool-entries] old(b.Err) == nil && b.Err == nil ==> forallStr(k, has(value, k) && istype(value[k], bool) ==> istype(result[k], bool) && as(result[k], bool) == as(value[k], bool))
